@@ -87,5 +87,10 @@ SeqIssue(k) == LET pos == (origin[1] - 1) + k
 \* whenever no allocation is in flight, what has been issued is exactly the first n members of that sequence (in some order)
 AllIdle == \A t \in Threads : pc[t] = "idle"
 IssuedIsSequence == AllIdle => \A k \in 0..(Len(issued) - 1) : \E i \in 1..Len(issued) : <<issued[i][1], issued[i][2]>> = SeqIssue(k)
+\* references: whenever no reference is being made, the words handed out are exactly the counter values StartCtr .. ctr - 1,
+\* each once (so references are pairwise distinct, and distinct from the unlink ids drawn from the same counter)
+RefsIdle == \A t \in RefThreads : rpc[t] = 0
+RefWords == UNION {{rissued[i][j] : j \in 1..Len(rissued[i])} : i \in 1..Len(rissued)}
+RefWordsAreCounter == RefsIdle => (RefWords = StartCtr..(ctr - 1) /\ ctr - StartCtr = 3 * Len(rissued))
 SerialAdvancesOnWrap == \A i \in 1..Len(issued) : \A j \in 1..Len(issued) : (i < j /\ issued[i][1] = issued[j][1]) => issued[i][2] # issued[j][2]
 =============================================================================
